@@ -334,6 +334,9 @@ def resolve(world, op):
                 vols = [max(0.0, best)] * len(flat)
             else:
                 vols = [vols[0]] * len(flat)
+        if op.get("ints") and len(flat) % 2 == 0 and all(math.isfinite(v) for v in vols):
+            # whole microlitres (rounded down: still within the limits), so that the volumes can travel as an integer array
+            vols = [float(math.floor(v)) for v in vols]
         conc = {"op": kind, "lw": i, "wells": csel, "vols": vols_concrete(shape, vols, csel), "label": op.get("label"), "kw": dict(op.get("kw") or {}), "ints": bool(op.get("ints"))}
         if op.get("comps") and kind in ("add", "dispense"):
             conc["comps"] = op["comps"]
